@@ -29,8 +29,8 @@ RULE = ("programs = time-ordered chains [State]? (Gate|MProcess)* [Povm]? of the
         "pool operands (2 per kind; pool A generic non-commuting, pool B with zero-probability outcomes) x every binary "
         "bracketing (Catalan(n-1) trees, sub-trees shared) + the n-ary fold; every compose call is compared with the "
         "time-ordered reference of its sub-chain by serial outcome label, so all bracketings are compared with one "
-        "another through the common reference; non-trivial = the chain contains a measurement or two non-identical "
-        "operands; distinct = distinct (system, pool, chain, operands, tree)")
+        "another through the common reference; non-trivial = the case contains a measurement or two different operands "
+        "(every case does); distinct = distinct (system, pool, chain, operands, tree)")
 ASSUMPTIONS = ["operands are the physical objects of the shared alphabet (mc/alphabet.py), is_physicality_required=True, "
                "mode_sampling=False (the sampling mode of MProcess is random and not explored)",
                "no verdict on outcomes whose reference probability lies in (1e-12, 1e-7), i.e. within 10x of the library's "
@@ -41,7 +41,7 @@ ASSUMPTIONS = ["operands are the physical objects of the shared alphabet (mc/alp
                "for generate_mprocess only what the statement promises is checked (physical, induces the POVM it came "
                "from, Born-consistent on every alphabet state), not the documented back-action formulas"]
 BOUNDS = {"quick": "chains length 2..4 on Q1,Q3,Q2 x pools A,B, length 5 on Q1,Q3,Q2 pool A; pairs/genmp/to_povm on Q1,Q3,Q2 full alphabets; rare outcomes p=1e-2..1e-5",
-          "thorough": "chains length 2..5 on Q1,Q3,Q2 x pools A,B, length 6 on Q1 pool A; pairs/genmp/to_povm on Q1,Q3,Q2 full alphabets; rare outcomes p=1e-2..1e-5"}
+          "thorough": "chains length 2..5 on Q1,Q3,Q2 x pools A,B, length 6 on Q1 pools A,B; pairs/genmp/to_povm on Q1,Q3,Q2 full alphabets; rare outcomes p=1e-2..1e-5"}
 EXHAUSTIVE = {"quick": True, "thorough": True}
 CASE_TIMEOUT = 900
 
@@ -636,7 +636,7 @@ def families(tier, seed):
     if tier == "quick":
         plan += [("Q1", "A", 5, 5), ("Q3", "A", 5, 5), ("Q2", "A", 5, 5)]
     else:
-        plan.append(("Q1", "A", 6, 6))
+        plan += [("Q1", "A", 6, 6), ("Q1", "B", 6, 6)]
     for n in range(2, 7):
         for tag, pool, lo, hi in plan:
             if lo <= n <= hi:
@@ -688,7 +688,7 @@ def ex_chains(p, seed):
         if q is not None:
             ls = lib_stats(q)
             dig.append(np.concatenate([np.ravel(x) for x in (ls["items"] or [ls["ps"]])]))
-    out.nontrivial = ("M" in pat) or ("P" in pat) or n >= 2
+    out.nontrivial = True       # every pattern has assignments with different operands; most contain a measurement
     inner(out, ntrees - 1)
     out.count("chains", cnt)
     return _finish(out, dig)
